@@ -134,6 +134,206 @@ theorem KF_no_upper_image :
     validExported (identifierize [] [{ self := sz, up := sz }]) = false := by
   decide +kernel
 
+/-! ### validity of the identifier, for all names over runes that satisfy the table hypotheses -/
+
+/-- what the proof needs from Go's `unicode` tables for one rune of a name (the harness evaluates this
+    predicate for all 1,114,112 code points and counts the exceptions) -/
+structure TableOK (r : Rune) : Prop where
+  cased_letter : (r.self.lower = true ∨ r.self.upper = true) → r.self.letter = true
+  number_digit : r.self.number = true → r.self.digit = true
+  up_ident : r.cls ≠ .delim → (r.up.letter = true ∨ r.up.digit = true)
+  up_not_lower_only : r.up.lower = true → r.up.upper = true
+
+/-- a rune that may appear inside a Go identifier after the first position -/
+def identRune (r : RInfo) : Bool := r.letter || r.cp == 95 || r.digit
+
+theorem nondelim_identRune (r : Rune) (h : TableOK r) (hd : r.cls ≠ .delim) : identRune r.self = true := by
+  unfold Rune.cls RInfo.cls at hd
+  unfold identRune
+  by_cases h1 : r.self.lower = true
+  · simp [h.cased_letter (Or.inl h1)]
+  · by_cases h2 : r.self.upper = true
+    · simp [h.cased_letter (Or.inr h2)]
+    · by_cases h3 : r.self.number = true
+      · simp [h.number_digit h3]
+      · by_cases h4 : r.self.letter = true
+        · simp [h4]
+        · simp [h1, h2, h3, h4] at hd
+
+theorem up_identRune (r : Rune) (h : TableOK r) (hd : r.cls ≠ .delim) : identRune r.up = true := by
+  unfold identRune
+  rcases h.up_ident hd with h1 | h1 <;> simp [h1]
+
+theorem capitalize_all (p : List Rune) (hp : ∀ r ∈ p, TableOK r ∧ r.cls ≠ .delim) :
+    (capitalize [] p).all identRune = true := by
+  cases p with
+  | nil => simp [capitalize]
+  | cons a as =>
+    simp only [capitalize_plain, List.all_cons, List.all_map, Bool.and_eq_true, List.all_eq_true]
+    refine ⟨up_identRune a (hp a (by simp)).1 (hp a (by simp)).2, ?_⟩
+    intro x hx
+    exact nondelim_identRune x (hp x (by simp [hx])).1 (hp x (by simp [hx])).2
+
+theorem flatMap_all (ps : List (List Rune)) (h : ∀ p ∈ ps, ∀ r ∈ p, TableOK r ∧ r.cls ≠ .delim) :
+    (ps.flatMap (capitalize [])).all identRune = true := by
+  induction ps with
+  | nil => simp
+  | cons p ps ih =>
+    simp only [List.flatMap_cons, List.all_append, Bool.and_eq_true]
+    exact ⟨capitalize_all p (h p (by simp)), ih (fun q hq => h q (by simp [hq]))⟩
+
+theorem valid_blank : validExported (mkAscii "Blank") = true := by decide +kernel
+theorem valid_wildcard : validExported (mkAscii "Wildcard") = true := by decide +kernel
+theorem valid_undefined : validExported (mkAscii "Undefined") = true := by decide +kernel
+
+/-- **C14, identifiers**: for every name — any length, any alphabet — whose runes satisfy the table
+    hypotheses, `Identifierize` (no capitalizations) yields a valid exported Go identifier -/
+theorem ident_valid (rs : List Rune) (h : ∀ r ∈ rs, TableOK r) : validExported (identifierize [] rs) = true := by
+  unfold identifierize
+  split
+  · exact valid_blank
+  · split
+    · exact valid_wildcard
+    · obtain ⟨hparts, hflat⟩ := splitIdent_spec rs
+      have hmem : ∀ p ∈ splitIdent rs, ∀ r ∈ p, TableOK r ∧ r.cls ≠ .delim := by
+        intro p hp r hr
+        have hin : r ∈ (splitIdent rs).flatten := List.mem_flatten.mpr ⟨p, hp, hr⟩
+        rw [hflat] at hin
+        exact ⟨h r (List.mem_filter.mp hin).1, (hparts p hp).2 r hr⟩
+      have hall := flatMap_all (splitIdent rs) hmem
+      unfold identifierizeRunes
+      simp only
+      cases hps : splitIdent rs with
+      | nil => simp [valid_undefined]
+      | cons p0 ps =>
+        have hp0 := (hparts p0 (by simp [hps])).1
+        cases p0 with
+        | nil => exact absurd rfl hp0
+        | cons a as =>
+          rw [hps] at hall
+          simp only [List.flatMap_cons, capitalize_plain, List.cons_append] at hall ⊢
+          have hall' := hall
+          simp only [List.all_cons, Bool.and_eq_true] at hall'
+          have ha := hmem (a :: as) (by simp [hps]) a (by simp)
+          split
+          · -- repaired with a leading `A`
+            simp only [validExported, letterA, Bool.and_self, Bool.true_and]
+            exact hall
+          · rename_i hgood
+            simp only [validExported, Bool.and_eq_true]
+            refine ⟨?_, hall'.2⟩
+            have hg : a.up.letter = true ∧ (a.up.upper = false → a.up.lower = true) := by
+              simp at hgood
+              exact hgood
+            refine ⟨hg.1, ?_⟩
+            cases hu : a.up.upper with
+            | true => rfl
+            | false => exact (hu ▸ ha.1.up_not_lower_only (hg.2 hu))
+
+/-- the hypotheses are satisfiable by a non-trivial name, and the conclusion is what the driver computes -/
+example : validExported (identifierize [] ("foo_bar 9x".toList.map asciiRune)) = true := by decide +kernel
+
+
+/-- a configured capitalization (`--capitalization ID`): identifier runes, not starting with a lower-case-only letter -/
+def CapOK (c : List RInfo) : Prop :=
+  c.all identRune = true ∧ ∀ r0 ∈ c.head?, r0.lower = true → r0.upper = true
+
+theorem capitalize_cases (caps : List (List RInfo)) (a : Rune) (as : List Rune) :
+    (∃ c ∈ caps, c.length = (a :: as).length ∧ capitalize caps (a :: as) = c) ∨
+    capitalize caps (a :: as) = a.up :: as.map (·.self) := by
+  unfold capitalize
+  cases hf : caps.find? (fun c => equalFold c ((a :: as).map (·.self))) with
+  | none => right; rfl
+  | some c =>
+    left
+    refine ⟨c, List.mem_of_find?_eq_some hf, ?_, rfl⟩
+    have := List.find?_some hf
+    unfold equalFold at this
+    simp only [Bool.and_eq_true, beq_iff_eq] at this
+    simpa using this.1
+
+theorem capitalize_all' (caps : List (List RInfo)) (hc : ∀ c ∈ caps, CapOK c) (p : List Rune)
+    (hp : ∀ r ∈ p, TableOK r ∧ r.cls ≠ .delim) : (capitalize caps p).all identRune = true := by
+  cases p with
+  | nil => simp [capitalize]
+  | cons a as =>
+    rcases capitalize_cases caps a as with ⟨c, hcm, _, heq⟩ | heq
+    · rw [heq]; exact (hc c hcm).1
+    · rw [heq, ← capitalize_plain]; exact capitalize_all (a :: as) hp
+
+theorem flatMap_all' (caps : List (List RInfo)) (hc : ∀ c ∈ caps, CapOK c) (ps : List (List Rune))
+    (h : ∀ p ∈ ps, ∀ r ∈ p, TableOK r ∧ r.cls ≠ .delim) :
+    (ps.flatMap (capitalize caps)).all identRune = true := by
+  induction ps with
+  | nil => simp
+  | cons p ps ih =>
+    simp only [List.flatMap_cons, List.all_append, Bool.and_eq_true]
+    exact ⟨capitalize_all' caps hc p (h p (by simp)), ih (fun q hq => h q (by simp [hq]))⟩
+
+/-- the first rune of a capitalized non-empty part is not a lower-case-only letter -/
+theorem capitalize_head (caps : List (List RInfo)) (hc : ∀ c ∈ caps, CapOK c) (a : Rune) (as : List Rune)
+    (ha : TableOK a) : ∃ r0 rest, capitalize caps (a :: as) = r0 :: rest ∧ (r0.lower = true → r0.upper = true) := by
+  rcases capitalize_cases caps a as with ⟨c, hcm, hlen, heq⟩ | heq
+  · cases c with
+    | nil => simp at hlen
+    | cons r0 rest =>
+      refine ⟨r0, rest, heq, ?_⟩
+      exact (hc _ hcm).2 r0 (by simp)
+  · exact ⟨a.up, as.map (·.self), heq, ha.up_not_lower_only⟩
+
+/-- **C14, identifiers, with capitalizations**: for every name whose runes satisfy the table hypotheses and
+    every set of well-formed capitalizations, `Identifierize` yields a valid exported Go identifier -/
+theorem ident_valid_caps (caps : List (List RInfo)) (hc : ∀ c ∈ caps, CapOK c) (rs : List Rune)
+    (h : ∀ r ∈ rs, TableOK r) : validExported (identifierize caps rs) = true := by
+  unfold identifierize
+  split
+  · exact valid_blank
+  · split
+    · exact valid_wildcard
+    · obtain ⟨hparts, hflat⟩ := splitIdent_spec rs
+      have hmem : ∀ p ∈ splitIdent rs, ∀ r ∈ p, TableOK r ∧ r.cls ≠ .delim := by
+        intro p hp r hr
+        have hin : r ∈ (splitIdent rs).flatten := List.mem_flatten.mpr ⟨p, hp, hr⟩
+        rw [hflat] at hin
+        exact ⟨h r (List.mem_filter.mp hin).1, (hparts p hp).2 r hr⟩
+      have hall := flatMap_all' caps hc (splitIdent rs) hmem
+      unfold identifierizeRunes
+      simp only
+      cases hps : splitIdent rs with
+      | nil => simp [valid_undefined]
+      | cons p0 ps =>
+        have hp0 := (hparts p0 (by simp [hps])).1
+        cases p0 with
+        | nil => exact absurd rfl hp0
+        | cons a as =>
+          rw [hps] at hall
+          have ha := hmem (a :: as) (by simp [hps]) a (by simp)
+          obtain ⟨r0, rest, heq, hup⟩ := capitalize_head caps hc a as ha.1
+          simp only [List.flatMap_cons, heq, List.cons_append] at hall ⊢
+          have hall' := hall
+          simp only [List.all_cons, Bool.and_eq_true] at hall'
+          split
+          · simp only [validExported, letterA, Bool.and_self, Bool.true_and]
+            exact hall
+          · rename_i hgood
+            simp only [validExported, Bool.and_eq_true]
+            refine ⟨?_, hall'.2⟩
+            have hg : r0.letter = true ∧ (r0.upper = false → r0.lower = true) := by
+              simp at hgood
+              exact hgood
+            refine ⟨hg.1, ?_⟩
+            cases hu : r0.upper with
+            | true => rfl
+            | false => exact (hu ▸ hup (hg.2 hu))
+
+example : CapOK (mkAscii "ID") := by
+  refine ⟨by decide +kernel, ?_⟩
+  intro r0 h0 hl
+  simp [mkAscii] at h0
+  subst h0
+  revert hl; decide +kernel
+
+
 /-! ### the tag carries the exact property name -/
 
 /-- every tag of a field quotes the raw property name (with `,omitempty` iff optional), whatever the name -/
